@@ -11,7 +11,7 @@ if [ ! -d $ISO/repo ]; then git -C /repo worktree add --detach $ISO/repo HEAD -q
 git -C $ISO/repo checkout -q --detach $(git -C /repo rev-parse HEAD) && git -C $ISO/repo checkout -- . || exit 2
 git -C $ISO/repo apply "$patch" || { echo "patch does not apply"; exit 2; }
 mkdir -p $ISO/root/sim $ISO/root/replays
-rsync -a --delete --exclude target --exclude build.log /verif/sim/ $ISO/root/sim/
+rsync -a --delete --exclude target --exclude target-wide --exclude build.log ${SIM_SRC:-/verif/sim}/ $ISO/root/sim/
 sed -i "s#path = \"/repo\"#path = \"$ISO/repo\"#" $ISO/root/sim/Cargo.toml
 cp /verif/known_findings.json $ISO/root/; rsync -a /verif/findings $ISO/root/
 BINDIR=$ISO/root/sim/target/release
